@@ -1,5 +1,6 @@
 SPECIFICATION Spec
 CONSTANTS
+  Fence = FALSE
   TSO = TRUE
   Rounds = 2
 INVARIANT MutualExclusion
